@@ -46,6 +46,11 @@ def program_family(run: Run):
             r = repr(p)
             if "'w0'" in r or "'w1'" in r or "'arm'" in r:
                 yield p
+    # the same programs with every `if` written as a `match` statement (all sizes <=3, thorough <=4)
+    for size in ((1, 2, 3, 4) if run.thorough else (1, 2, 3)):
+        for p in coro.programs(size, calls=(0, 1)):
+            if coro.has(p, "if"):
+                yield coro.to_match(p)
     if not run.thorough:
         # every structural shape of size 4 over a reduced alphabet (one condition, two awaits, one sub-coroutine) ...
         seen = set()
